@@ -141,11 +141,17 @@ def run(ctx):
         if len(t['hist']) >= 2:
             out['nontrivial'] += 1
         if v[2]:
-            for c in {f[0] for f in v[2]}:
+            first = {}
+            for c, i in sorted(v[2], key=lambda f: f[1]):
+                first.setdefault(c, i)            # one entry per distinct clause (its first event), never truncated
+            keep_it = False
+            for c in first:
                 out['clause_counts'][c] += 1
-            if len(out['fails']) < 60:
-                out['fails'].append({'tid': t['tid'], 'fails': v[2][:10], 'g': t['g'], 'enc': t['enc'], 'problem': t['problem'],
-                                     'hist': t['hist']})
+                if out['clause_counts'][c] <= 40:  # up to 40 failing traces are kept PER CLAUSE
+                    keep_it = True
+            if keep_it:
+                out['fails'].append({'tid': t['tid'], 'fails': [[c, i] for c, i in first.items()], 'g': t['g'], 'enc': t['enc'],
+                                     'problem': t['problem'], 'hist': t['hist']})
     for t in traces[1:2] + traces[len(traces)//2:len(traces)//2+1]:
         out['samples'].append({'enc': t['enc'], 'history': t['hist'], 'first_events': [
             {'e': e['e'], 'x': e['x'], 'v': e['v'], 'val': e['val'], 'long_rx': e['long']['rx'], 'fresh_rx': e['fresh']['rx']}
